@@ -1206,7 +1206,9 @@ mod handle_cache_helpers {
         Option<(ResponsePipeFuture, Option<u64>)>,
         comprash::PathQuery,
     ) {
-        let path_query = comprash::PathQuery::from(request.uri());
+        // The response is cached under the URI it is looked up with in `handle_cache`: the
+        // internal URI if a Prime extension overrode the request's.
+        let path_query = comprash::PathQuery::from(overide_uri.unwrap_or_else(|| request.uri()));
         let (mut resp, mut client_cache, mut server_cache, mut compress, future) =
             match sanitize_data {
                 Ok(_) => {
